@@ -2,14 +2,30 @@ package dig
 
 // Bounded stand-in for C13 (labelled bounded): Event.Signature against an
 // independent canonicalisation for tuple/array nestings of depth <= 3, and
-// SignatureHash against known Keccak-256 values.
+// SignatureHash against known Keccak-256 values; and the acceptance gate of
+// processLog (first topic = hash of the canonical signature, one further
+// topic per indexed input of any type) for events with 0..3 indexed inputs.
 
 import (
+	"bytes"
+	"context"
 	"encoding/hex"
 	"fmt"
 	"strings"
+	"sync"
 	"testing"
+
+	"github.com/indexsupply/shovel/eth"
+	"github.com/indexsupply/shovel/wpg"
+	"golang.org/x/crypto/sha3"
 )
+
+// keccak is computed here, not taken from the code under check
+func keccak(s string) []byte {
+	h := sha3.NewLegacyKeccak256()
+	h.Write([]byte(s))
+	return h.Sum(nil)
+}
 
 type gty struct {
 	base   string // elementary type, or "" for tuple
@@ -92,6 +108,67 @@ func TestVerifSigBounded(t *testing.T) {
 		if got := hex.EncodeToString(ev.SignatureHash()); got != h {
 			fails++
 			fmt.Printf("BOUNDED-FAIL hash of %s: got %s want %s\n", sig, got, h)
+		}
+	}
+	// the gate: an integration built by the real dig.New accepts a log iff its
+	// first topic is the hash of the declared signature and it has one further
+	// topic per input declared indexed (whatever the input's type)
+	idxTypes := []Input{
+		{Name: "i", Type: "address", Indexed: true},
+		{Name: "i", Type: "uint256[]", Indexed: true},
+		{Name: "i", Type: "string", Indexed: true},
+		{Name: "i", Type: "tuple", Indexed: true, Components: []Input{{Name: "p", Type: "address"}, {Name: "q", Type: "uint256"}}},
+		{Name: "i", Type: "tuple[]", Indexed: true, Components: []Input{{Name: "p", Type: "address"}, {Name: "q", Type: "uint256"}}},
+	}
+	val := Input{Name: "v", Type: "uint256", Column: "v"}
+	var shapes [][]Input
+	shapes = append(shapes, []Input{val})
+	for _, a := range idxTypes {
+		shapes = append(shapes, []Input{a, val}, []Input{val, a})
+		for _, b := range idxTypes {
+			shapes = append(shapes, []Input{a, val, b})
+			shapes = append(shapes, []Input{a, b, {Name: "i", Type: "bytes32", Indexed: true}, val})
+		}
+	}
+	for si, ins := range shapes {
+		ev := Event{Name: "G", Type: "event", Inputs: ins}
+		nidx := 0
+		for _, in := range ins {
+			if in.Indexed {
+				nidx++
+			}
+		}
+		ig, err := New("ig", ev, nil, wpg.Table{Name: "t", Columns: []wpg.Column{{Name: "v", Type: "numeric"}}}, Notification{}, "")
+		if err != nil {
+			cases++
+			fails++
+			fmt.Printf("BOUNDED-FAIL gate shape %d: New: %v\n", si, err)
+			continue
+		}
+		good := keccak(ev.Signature())
+		bad := keccak("G(uint256)x")
+		for nt := 1; nt <= 5; nt++ {
+			for _, h := range [][]byte{good, bad} {
+				cases++
+				l := eth.Log{Data: make([]byte, 32)}
+				l.Data[31] = 42
+				l.Topics = append(l.Topics, h)
+				for k := 1; k < nt; k++ {
+					l.Topics = append(l.Topics, bytes.Repeat([]byte{byte(k)}, 32))
+				}
+				lwc := &logWithCtx{ctx: context.Background(), b: &eth.Block{}, t: &eth.Tx{}, l: &l}
+				rows, err := ig.processLog(nil, lwc, &sync.Mutex{}, nil)
+				wantRows := 0
+				if nt-1 == nidx && bytes.Equal(h, good) {
+					wantRows = 1
+				}
+				if err != nil || len(rows) != wantRows {
+					fails++
+					if fails <= 10 {
+						fmt.Printf("BOUNDED-FAIL gate: %s with %d indexed inputs, log with %d topics, declared hash=%v: %d rows (err=%v), want %d\n", ev.Signature(), nidx, nt, bytes.Equal(h, good), len(rows), err, wantRows)
+					}
+				}
+			}
 		}
 	}
 	fmt.Printf("BOUNDED cases=%d failures=%d exhaustive=true\n", cases, fails)
